@@ -1014,7 +1014,8 @@ def target_rate(x: Series, y: Series, dropna: bool = True, ascending=True) -> di
         _description_
     """
 
-    rates = y.groupby(x, dropna=dropna).mean().sort_values(ascending=ascending)
+    # (stable sort: modalities with equal target rates keep their alphabetical order)
+    rates = y.groupby(x, dropna=dropna).mean().sort_values(ascending=ascending, kind="stable")
 
     return rates.to_dict()
 
